@@ -9,9 +9,10 @@
 #include "../harness/addrcore.hpp"
 
 using namespace vf;
-extern "C" const vapi fault_api;
+extern "C" const vapi fault_api, xfault_api;
 extern "C" int __lsan_do_recoverable_leak_check(void);
-static const vapi *A = &fault_api;
+static const vapi *A = &fault_api;   // switched to the EAV_EXTRA fault build for half of the runs
+static const vapi *BUILD[2] = {&fault_api, &xfault_api};
 static std::string g_case;
 
 struct Fault { int code, buf; };
@@ -41,14 +42,15 @@ static std::string mklong(size_t n, const char *unit) { std::string s = "a@"; wh
 static const std::string L1 = mklong(1017, "a"), L2 = mklong(1018, "a"), L3 = mklong(1494, "b"), L4 = mklong(4994, "c"), L5 = mklong(1400, "\xD0\xB6");
 static const char *LONG1023 = L1.c_str(), *LONG1024 = L2.c_str(), *LONG1500 = L3.c_str(), *LONG5000 = L4.c_str(), *LONGCYR = L5.c_str();
 static const char *POOL[] = {"\xD0\xB8\xD0\xB2\xD0\xB0\xD0\xBD@\xD0\xBF\xD0\xBE\xD1\x87\xD1\x82\xD0\xB0.\xD1\x80\xD1\x84", "user@example.com", "a@sub.domain.org", "x@\xE5\xBE\xAE\xE5\x8D\x9A.\xE5\xBE\xAE\xE5\x8D\x9A",
-    "bad@\xE2\x99\xA5.de", "a@[1.2.3.4]", "a..b@c.com", "a@b", "a@x.zzunlisted", "a@-b.com", "\"q q\"@mail.ru", "a@[IPv6:::1]", "a@xn--p1ai.xn--p1ai", "a@b.abarth", "noat", "\xFF@b.com", LONG1023, LONG1024, LONG1500, LONG5000, LONGCYR};
+    "bad@\xE2\x99\xA5.de", "a@[1.2.3.4]", "a..b@c.com", "a@b", "a@x.zzunlisted", "a@-b.com", "\"q q\"@mail.ru", "a@[IPv6:::1]", "a@xn--p1ai.xn--p1ai", "a@b.abarth", "noat", "\xFF@b.com", "x@a\xE2\x80\x8C" "b.example.com", "x@\xD9\x86\xD8\xA7\xD9\x85\xD9\x87\xE2\x80\x8C\xD8\xA7\xDB\x8C.com", "x@a\xE2\x80\x8D" "b.com", LONG1023, LONG1024, LONG1500, LONG5000, LONGCYR};
 static const int NPOOL = sizeof POOL / sizeof POOL[0];
 
 struct Step { int mode, tld, addr; };
 struct RunSpec { std::vector<Step> steps; std::map<long, Fault> faults; };
 
+static int g_build = 0;
 static std::string enc(const RunSpec &r) {
-    std::string s = "steps=";
+    std::string s = "build=" + std::to_string(g_build) + " steps=";
     for (size_t i = 0; i < r.steps.size(); i++) { if (i) s += ","; s += std::to_string(r.steps[i].mode) + ":" + std::to_string(r.steps[i].tld) + ":" + std::to_string(r.steps[i].addr); }
     s += " faults=";
     bool first = true;
@@ -57,7 +59,7 @@ static std::string enc(const RunSpec &r) {
     return s;
 }
 static RunSpec dec(const std::string &c) {
-    RunSpec r; Case cs = Case::parse(c);
+    RunSpec r; Case cs = Case::parse(c); g_build = (int) cs.geti("build", 0); A = BUILD[g_build];
     auto split = [](const std::string &s, char d) { std::vector<std::string> v; std::string t; std::istringstream is(s); while (std::getline(is, t, d)) v.push_back(t); return v; };
     for (auto &t : split(cs.raw("steps"), ',')) { auto p = split(t, ':'); if (p.size() == 3) r.steps.push_back({atoi(p[0].c_str()), atoi(p[1].c_str()), atoi(p[2].c_str())}); }
     for (auto &t : split(cs.raw("faults"), ',')) { auto p = split(t, ':'); if (p.size() == 3) r.faults[atol(p[0].c_str())] = {atoi(p[1].c_str()), atoi(p[2].c_str())}; }
@@ -66,7 +68,7 @@ static RunSpec dec(const std::string &c) {
 
 static std::map<int, v_outcome> g_fresh;
 static const v_outcome &fresh(int mode, int tld, int addr) {
-    int key = (mode * 2 + tld) * 64 + addr;
+    int key = ((g_build * 4 + mode) * 2 + tld) * 64 + addr;
     auto it = g_fresh.find(key); if (it != g_fresh.end()) return it->second;
     bool en = g_enabled; g_enabled = false;
     Obj o(A); o.configure(mode, tld); v_outcome x = o.is_email(POOL[addr]);
@@ -140,8 +142,10 @@ static void stage_single(Run &R) {
     for (int kind = 0; kind < 3; kind++) for (int len : {1, 2, 8, 50}) {
         RunSpec base = template_run(kind, len); long nconv = conversions_of(base);
         std::vector<long> pos; for (long p = 0; p < nconv; p++) if (len <= 8 || p < 3 || p >= nconv - 3 || p % 7 == 0) pos.push_back(p);
-        for (int c = 0; c < NCODES; c++) for (int buf = 0; buf < 2; buf++) for (long p : pos) {
+        for (int bld = 0; bld < 2; bld++) for (int c = 0; c < NCODES; c++) for (int buf = 0; buf < 2; buf++) for (long p : pos) {
+            if (bld == 1 && len == 50 && (p % 3)) continue;
             total++; if ((int) (idx++ % R.a.nworkers) != R.a.worker) continue;
+            g_build = bld; A = BUILD[bld];
             RunSpec r = base; r.faults[p] = {CODES[c], buf};
             auto f = run_spec(R, r); if (f && !R.fail(*f)) return;
             R.sample("single fault", enc(r), 3);
@@ -152,6 +156,7 @@ static void stage_single(Run &R) {
 
 static void stage_random(Run &R) {
     rc_run(R, "C19 random multi-fault schedules are contained", 1.5, [&](Src &s) -> std::optional<Failure> {
+        g_build = (int) s.pick(2); A = BUILD[g_build];
         RunSpec r; uint32_t n = 1 + s.pick(50);
         for (uint32_t i = 0; i < n; i++) r.steps.push_back({s.chance(1, 4) ? (int) s.pick(3) : 3, (int) s.pick(2), (int) s.pick(NPOOL)});
         uint32_t nf = s.pick(6);
